@@ -14,6 +14,7 @@ package c08
 
 import (
 	"bytes"
+	"context"
 	"encoding/xml"
 	"errors"
 	"fmt"
@@ -27,6 +28,8 @@ import (
 
 	"mellium.im/xmlstream"
 	"mellium.im/xmpp"
+	"mellium.im/xmpp/jid"
+	"mellium.im/xmpp/stanza"
 	"mellium.im/xmpp/stream"
 
 	"mellium.im/xmpp/verifharness/core"
@@ -36,6 +39,7 @@ import (
 )
 
 const nsStreamErr = "urn:ietf:params:xml:ns:xmpp-streams"
+const nsFraming = "urn:ietf:params:xml:ns:xmpp-framing"
 
 // ---------------------------------------------------------------------------
 // case description
@@ -65,6 +69,15 @@ type Scenario struct {
 	// (synchronously at the start of invocation CloseAt, when the serve loop does
 	// not hold the output lock yet) | goroutine (on its own goroutine started at
 	// the start of invocation CloseAt: it lands whenever the output lock is free).
+	// WSFlag: the session is marked as a WebSocket session the way
+	// websocket.Negotiator does it (the internal wskey context key; not reachable
+	// through the public API on this tree), on ordinary stream framing: elements
+	// in the framing namespace are then stream-level constructs.
+	WSFlag bool `json:"ws_flag,omitempty"`
+	// OwnReq: the application has a request of its own pending (SendIQ on
+	// another goroutine); Items[OwnReq.Pos] is the peer's response to it, which
+	// goes to the requester and not to the handler.
+	OwnReq *OwnReq `json:"own_req,omitempty"`
 	// ReadFault: the transport's Read fails with an error of the given shape
 	// once At bytes of the input (after the stream header) have been delivered.
 	ReadFault *ReadFault `json:"read_fault,omitempty"`
@@ -74,6 +87,15 @@ type Scenario struct {
 	Chunks    []int      `json:"chunks,omitempty"` // read sizes handed to the library, cycled; empty = unlimited
 	Programs  []Prog     `json:"programs"`         // invocation i runs Programs[i mod len]
 }
+
+// OwnReq describes the application's own pending request.
+type OwnReq struct {
+	Pos     int    `json:"pos"`
+	ID      string `json:"id"`
+	Consume string `json:"consume"` // all | start | partial | cancel-hold (the request's context is cancelled after the hand-over, the response is held for a moment, then read to the end and closed)
+}
+
+const ownReqMarker = 900
 
 // ReadFault describes a failing transport read.
 type ReadFault struct {
@@ -149,6 +171,11 @@ func (g *gen) own() string {
 
 func (g *gen) text(idx int) string {
 	r := g.r
+	if r.Intn(8) == 0 {
+		// character data without characters: an empty CDATA section, alone or
+		// next to text
+		return pick(r, "<![CDATA[]]>", fmt.Sprintf("t%d;a<![CDATA[]]>", idx), fmt.Sprintf("<![CDATA[]]>t%d;b", idx), "<![CDATA[]]><![CDATA[]]>")
+	}
 	switch r.Intn(6) {
 	case 0:
 		return fmt.Sprintf("t%d;plain text", idx)
@@ -486,17 +513,20 @@ func generate(r *rand.Rand) Scenario {
 	}
 	ws := func() {
 		if r.Intn(4) == 0 {
-			sc.Items = append(sc.Items, pick(r, " ", "\n", "\t\r\n ", "   "))
+			sc.Items = append(sc.Items, pick(r, " ", "\n", "\t\r\n ", "   ", "<![CDATA[]]>", " <![CDATA[]]>\n"))
 		}
 	}
 	n := r.Intn(5)
 	idx := 0
+	var lead []int // item indexes of the leading elements
 	for i := 0; i < n; i++ {
 		ws()
 		idx++
+		lead = append(lead, len(sc.Items))
 		sc.Items = append(sc.Items, g.top(idx))
 	}
 	ws()
+	lead = append(lead, len(sc.Items)) // where the terminator part begins
 	// the terminator
 	if r.Intn(3) == 0 {
 		// nested in one more element
@@ -582,7 +612,38 @@ func generate(r *rand.Rand) Scenario {
 		sc.AppClose = pick(r, "before", "in-handler", "in-handler", "goroutine")
 		sc.CloseAt = r.Intn(3)
 	}
-	if sc.Addr == "" && r.Intn(6) == 0 {
+	if sc.Addr == "" && r.Intn(10) == 0 {
+		sc.WSFlag = true
+		// framing-namespace elements: a restart (<open/>) or any other one, at the
+		// top level before everything else that ends the stream, or nested
+		fr := pick(r, "<open xmlns='"+nsFraming+"' version='1.0'/>", "<close xmlns='"+nsFraming+"'/>", "<f:open xmlns:f='"+nsFraming+"'><a/></f:open>")
+		at := lead[r.Intn(len(lead))]
+		if r.Intn(2) == 0 {
+			fr = fmt.Sprintf("<message e='%d'><body e='%d'>t%d;x</body>%s<x xmlns='urn:c08:x' e='%d'/></message>", ownReqMarker+1, ownReqMarker+1, ownReqMarker+1, fr, ownReqMarker+1)
+		}
+		sc.Items = append(sc.Items[:at:at], append([]string{fr}, sc.Items[at:]...)...)
+	} else if sc.Addr == "" && r.Intn(8) == 0 {
+		// the application's own request: the response arrives somewhere among the
+		// leading elements (or right before the terminator)
+		at := lead[r.Intn(len(lead))]
+		var sb strings.Builder
+		fmt.Fprintf(&sb, "<iq type='%s' id='own1' e='%d' from='%s'>", pick(r, "result", "result", "error"), ownReqMarker, esc(g.o.Remote))
+		for i, m := 0, r.Intn(4); i < m; i++ {
+			if r.Intn(3) == 0 {
+				sb.WriteString(g.text(ownReqMarker))
+			} else {
+				sb.WriteString(g.child(ownReqMarker, 2))
+			}
+			if r.Intn(12) == 0 {
+				// a stream-level construct inside the response
+				sb.WriteString(g.construct(pick(r, "comment", "procinst", "directive", "stream-element"), true))
+			}
+		}
+		sb.WriteString("</iq>")
+		sc.Items = append(sc.Items[:at:at], append([]string{sb.String()}, sc.Items[at:]...)...)
+		sc.OwnReq = &OwnReq{Pos: at, ID: "own1", Consume: pick(r, "all", "all", "start", "partial", "cancel-hold", "cancel-hold")}
+		sc.AppClose = ""
+	} else if sc.Addr == "" && r.Intn(6) == 0 {
 		// a failing transport read: at a boundary between the pieces of the input
 		// (between elements, after a keep-alive, before the terminator) or anywhere
 		total := 0
@@ -614,17 +675,18 @@ type refElem struct {
 }
 
 type reference struct {
-	Elems   []*refElem
-	Term    string // closing | stream-error | restart | stream-element | comment | procinst | directive | text | malformed | eof
-	Nested  bool
-	Cond    string // stream error condition
-	AppCond bool   // the stream error has a child outside the stream error namespace
-	Texts   int    // number of <text/> children
+	Elems      []*refElem
+	Term       string // closing | stream-error | restart | stream-element | comment | procinst | directive | text | malformed | eof
+	Nested     bool
+	Cond       string // stream error condition
+	InResponse bool   // the nested terminator lies in the response handed to the application
+	AppCond    bool   // the stream error has a child outside the stream error namespace
+	Texts      int    // number of <text/> children
 }
 
 func isWS(b []byte) bool { return len(bytes.Trim(b, " \t\r\n")) == 0 }
 
-func parseRef(header, input string) *reference {
+func parseRef(header, input string, wsFlag bool) *reference {
 	ref := &reference{}
 	d := xml.NewDecoder(strings.NewReader(header + input))
 	for {
@@ -662,6 +724,9 @@ func parseRef(header, input string) *reference {
 		}
 		switch t := tok.(type) {
 		case xml.StartElement:
+			if wsFlag && t.Name.Space == nsFraming {
+				return finish("ws-frame")
+			}
 			if t.Name.Space == sess.NSStream {
 				switch t.Name.Local {
 				case "error":
@@ -750,12 +815,13 @@ type readRec struct {
 }
 
 type invocation struct {
-	WriteErr error // the error of a write the encoder was expected to refuse
-	Refused  bool  // such a write was attempted
-	Start    xml.StartElement
-	Reads    []readRec
-	Ret      error
-	RetStr   string
+	WhileRespOpen bool  // the handler was invoked while the application still held a response
+	WriteErr      error // the error of a write the encoder was expected to refuse
+	Refused       bool  // such a write was attempted
+	Start         xml.StartElement
+	Reads         []readRec
+	Ret           error
+	RetStr        string
 }
 
 var errCustom = errors.New("c08: handler program error")
@@ -767,6 +833,68 @@ type recorder struct {
 	s        *xmpp.Session
 	closedAt int           // invocation index from which the output stream is (being) closed; -1 = never
 	closeRet chan struct{} // closed when an asynchronous Session.Close has returned
+	rq       *requester    // the application's own request, if any
+}
+
+// requester is the application goroutine with a request of its own.
+type requester struct {
+	respOpen atomic.Bool // it holds a response that it has not closed yet
+	got      bool        // SendIQ returned a response
+	err      error
+	reads    []readRec // what it read from the response
+	done     chan struct{}
+	cancel   context.CancelFunc
+}
+
+func (rq *requester) run(c *core.Case, s *xmpp.Session, remote string, or *OwnReq, progress *atomic.Int64) {
+	defer close(rq.done)
+	ctx, cancel := context.WithCancel(context.Background())
+	rq.cancel = cancel
+	c.Guard("SendIQ", func() {
+		to, _ := jid.Parse(remote)
+		resp, err := s.SendIQ(ctx, stanza.IQ{ID: or.ID, Type: stanza.GetIQ, To: to}.Wrap(
+			xmlstream.Wrap(nil, xml.StartElement{Name: xml.Name{Space: "urn:xmpp:ping", Local: "ping"}})))
+		progress.Add(1)
+		rq.err = err
+		if resp == nil {
+			return
+		}
+		rq.got = true
+		rq.respOpen.Store(true)
+		read := func() error {
+			// a response closes itself when reading it fails: while a read is in
+			// progress it may stop being "held" without the requester knowing yet
+			rq.respOpen.Store(false)
+			tok, err := resp.Token()
+			if err == nil {
+				rq.respOpen.Store(true)
+			}
+			if tok != nil {
+				tok = xml.CopyToken(tok)
+			}
+			rq.reads = append(rq.reads, readRec{Tok: tok, Err: err})
+			progress.Add(1)
+			return err
+		}
+		n := 100000
+		switch or.Consume {
+		case "start":
+			n = 1
+		case "partial":
+			n = 3
+		case "cancel-hold":
+			// the request's context ends while the response is still out
+			cancel()
+			time.Sleep(3 * time.Millisecond)
+		}
+		for i := 0; i < n; i++ {
+			if read() != nil {
+				break
+			}
+		}
+		rq.respOpen.Store(false)
+		resp.Close()
+	})
 }
 
 // appClose is the application calling Session.Close.
@@ -790,6 +918,9 @@ func (rc *recorder) HandleXMPP(rw xmlstream.TokenReadEncoder, start *xml.StartEl
 	inv := &invocation{Start: start.Copy()}
 	rc.invs = append(rc.invs, inv)
 	rc.progress.Add(1)
+	if rc.rq != nil && rc.rq.respOpen.Load() {
+		inv.WhileRespOpen = true
+	}
 	if rc.closedAt < 0 && i == rc.sc.CloseAt {
 		switch rc.sc.AppClose {
 		case "in-handler":
@@ -1040,6 +1171,9 @@ func tokStr(t xml.Token) string {
 }
 
 func termKey(ref *reference) string {
+	if ref.InResponse {
+		return "response-" + ref.Term
+	}
 	if ref.Nested {
 		return "nested-" + ref.Term
 	}
@@ -1082,7 +1216,21 @@ func Run(c *core.Case, sc Scenario) {
 	if sc.ReadFault != nil && sc.ReadFault.At < len(input) {
 		refInput = input[:sc.ReadFault.At] // what the library can have read
 	}
-	ref := parseRef(sess.Header(o), refInput)
+	ref := parseRef(sess.Header(o), refInput, sc.WSFlag)
+	// the response to the application's own request is not the handler's
+	var respElem *refElem
+	if sc.OwnReq != nil {
+		for k, e := range ref.Elems {
+			if e.Idx == strconv.Itoa(ownReqMarker) {
+				respElem = e
+				ref.Elems = append(ref.Elems[:k:k], ref.Elems[k+1:]...)
+				if e.Partial {
+					ref.InResponse = true
+				}
+				break
+			}
+		}
+	}
 	rec := &recorder{sc: sc, s: ev.S, closedAt: -1}
 	if sc.AppClose == "before" {
 		rec.appClose(0, false)
@@ -1106,6 +1254,37 @@ func Run(c *core.Case, sc Scenario) {
 		defer close(done)
 		panicked = c.Guard("Serve", func() { serveErr = ev.S.Serve(xmpp.Handler(rec)) })
 	}()
+	if sc.OwnReq != nil && ev.feed != nil {
+		rec.rq = &requester{done: make(chan struct{})}
+		go rec.rq.run(c, ev.S, o.Remote, sc.OwnReq, &rec.progress)
+		// the request is registered before it is written: once it is on the wire
+		// the peer may answer
+		deadline := time.Now().Add(20 * time.Second)
+		for {
+			onWire := false
+			for _, e := range xmltree.ParseStream(ev.Lib.Written(), true).Elems {
+				if e.Name.Local == "iq" && e.Attr("id") == sc.OwnReq.ID {
+					onWire = true
+				}
+			}
+			if onWire {
+				break
+			}
+			if time.Now().After(deadline) {
+				c.Inconclusive("own request: the request did not appear on the wire within 20s")
+				rec.rq.cancel()
+				ev.feed()
+				return
+			}
+			time.Sleep(200 * time.Microsecond)
+		}
+		ev.feed()
+		defer func() {
+			if rec.rq.cancel != nil {
+				rec.rq.cancel()
+			}
+		}()
+	}
 	progress := func() int64 {
 		_, _, ops := ev.Lib.Ops() // transport activity counts as progress too
 		return rec.progress.Load() + int64(ops)
@@ -1144,6 +1323,63 @@ func Run(c *core.Case, sc Scenario) {
 	}
 	if panicked {
 		return
+	}
+	if rec.rq != nil {
+		rq := rec.rq
+		if rq.cancel != nil {
+			rq.cancel() // Serve is over: a request that was never answered ends here
+		}
+		if !stall.WaitDone(rq.done, 20*time.Second) {
+			c.Inconclusive("own request: the requester did not return although Serve did")
+			return
+		}
+		c.Count("own_requests", 1)
+		c.Count("own_request_consume_"+sc.OwnReq.Consume, 1)
+		for i, inv := range rec.invs {
+			if inv.WhileRespOpen {
+				c.Violate("elem:handoff:handler-invoked-while-response-open", "invocation %d (%s) began while the application still held the response to its own request open (consume=%s)", i, tokStr(inv.Start), sc.OwnReq.Consume)
+				break
+			}
+		}
+		if rq.got && respElem != nil {
+			c.Count("own_request_got_response", 1)
+			// the tokens of the response are the response's: its start tag, then a
+			// prefix of its inner tokens, the end tag optional
+			exp := append([]xml.Token{respElem.Start}, respElem.Tokens...)
+			pos := 0
+			for k, rd := range rq.reads {
+				if rd.Tok == nil {
+					if rd.Err == nil {
+						c.Violate("elem:handoff:response-tokens", "the requester's read %d returned neither a token nor an error (response %s)", k, tokStr(respElem.Start))
+					}
+					break
+				}
+				if lk := leakKind(rd.Tok); lk != "" {
+					c.Violate("elem:leak:"+lk, "the requester's read %d returned %s", k, tokStr(rd.Tok))
+					break
+				}
+				if pos < len(exp) && sameToken(rd.Tok, exp[pos]) {
+					pos++
+					continue
+				}
+				w := "<nothing>"
+				if pos < len(exp) {
+					w = tokStr(exp[pos])
+				}
+				key := "elem:handoff:response-tokens"
+				if pos >= len(exp) || foreignMarker(rd.Tok, respElem.Idx) {
+					key = "elem:handoff:response-overread"
+				}
+				c.Violate(key, "the requester's read %d returned %s, the response's token %d is %s (consume=%s)", k, tokStr(rd.Tok), pos, w, sc.OwnReq.Consume)
+				break
+			}
+			if pos == len(exp) || pos == len(exp)-1 {
+				c.Count("own_response_read_to_the_end", 1)
+			}
+			if ref.InResponse {
+				c.Count("own_response_with_nested_construct", 1)
+			}
+		}
 	}
 	if rec.closeRet != nil && !stall.WaitDone(rec.closeRet, 20*time.Second) {
 		c.Inconclusive("Session.Close, called on its own goroutine during invocation %d, did not return although Serve did", rec.closedAt)
@@ -1386,7 +1622,7 @@ func Run(c *core.Case, sc Scenario) {
 		// session carries on after the handler's io.EOF nothing more is demanded.)
 		// (Not judged when that element is the one holding a nested terminator:
 		// what follows it is then the business of the nested-construct rule.)
-		lastWanted := stopped == expected-1 && (ref.Term == "closing" || ref.Nested)
+		lastWanted := stopped == expected-1 && (ref.Term == "closing" || ref.Nested) || ref.InResponse
 		if stopErr != io.EOF && errors.Is(stopErr, io.EOF) {
 			c.Count("handler_returned_error_wrapping_eof", 1)
 			if serveErr == nil && len(rec.invs) == stopped+1 && stopped < expected && !lastWanted && ref.Term != "eof" {
@@ -1524,6 +1760,16 @@ func witnesses() map[string]func(*core.Case) {
 		{"stream-error", `<stream:error><host-unknown xmlns='urn:ietf:params:xml:ns:xmpp-streams'/></stream:error>`},
 		{"restart", `<stream:stream xmlns='jabber:client' xmlns:stream='http://etherx.jabber.org/streams' version='1.0'></stream:stream>`},
 	}
+	// the same constructs inside the response to the application's own request:
+	// the requester gets the read error, the serve loop skips to the end of the
+	// response and carries on
+	for _, n := range nested[:3] {
+		w["elem:outcome:response-"+n[0]] = witness(Scenario{
+			Items: []string{`<iq type='result' id='own1' e='900' from='example.net'><a xmlns='urn:c08:x' e='900'/>` + n[1] + `<b xmlns='urn:c08:x' e='900'/></iq>`,
+				`<message e='1'/>`, `</stream:stream>`},
+			OwnReq:   &OwnReq{Pos: 0, ID: "own1", Consume: "all"},
+			Programs: []Prog{{Read: "all", Write: "none", Ret: "nil"}}})
+	}
 	for _, n := range nested {
 		w["elem:outcome:nested-"+n[0]] = witness(Scenario{
 			Items: []string{`<message e='1'><body e='1'>t1;a</body>` + n[1] + `<x xmlns='urn:c08:x' e='1'/></message>`,
@@ -1555,6 +1801,8 @@ func Prop() *core.Prop {
 			"invocations", "stanzas_dispatched", "non_stanzas_dispatched", "from_blanked_expected", "non_stanza_with_own_from",
 			"elements_read_to_eof", "elements_partly_read", "elements_not_read", "reads_after_eof", "reads_after_error",
 			"nested_construct_surfaced_as_read_error", "chunked_streams",
+			"session_flagged_websocket", "terminator_ws-frame", "terminator_nested-ws-frame",
+			"own_requests", "own_request_got_response", "own_response_read_to_the_end", "own_request_consume_all", "own_request_consume_start", "own_request_consume_partial", "own_request_consume_cancel-hold",
 			"read_fault_reached", "read_fault_wrapped-eof", "read_fault_operror-eof", "read_fault_custom-is-eof", "read_fault_custom-unwrap-eof",
 			"read_fault_unexpected-eof", "read_fault_wrapped-unexpected-eof", "read_fault_plain",
 			"read_fault_inside_element", "read_fault_after_keepalive", "read_fault_between_elements", "handler_returned_error_wrapping_eof",
